@@ -12,8 +12,8 @@ EXPLANATION = ("LEVINSON, TOEPLITZ, HERMTOEP and CHOLESKY are executed on symbol
 BOUNDS = {
     "quick": "LEVINSON real order<=4, complex order<=2; Sylvester oracle order<=3 (real), <=2 (complex); root query "
              "order<=2 real, 1 complex; HERMTOEP M<=4 (5x5 systems) real and complex, TOEPLITZ M<=3 real, M<=2 complex; CHOLESKY n<=2 complex, n<=3 real",
-    "thorough": "LEVINSON real order<=6, complex order<=3; Sylvester order<=4 real, 3 complex; root query order<=3 real, 2 complex; "
-                "HERMTOEP M<=4, TOEPLITZ M<=4 (complex M>=3 attempted, may be inconclusive); CHOLESKY n<=3",
+    "thorough": "LEVINSON real order<=6, complex order<=3; Sylvester order<=4 real, 3 complex; root query order<=2 real, 1 complex (+ Schur-Cohn lemma p<=3 real, 2 complex); "
+                "HERMTOEP M<=4, TOEPLITZ M<=4 real, M<=2 complex; CHOLESKY n<=3",
 }
 ASSUMPTIONS = ["floats modelled as exact reals", "sizes concrete and bounded",
                "CHOLESKY: library factorisations replaced by their contract (fresh L, positive diagonal, L L^H = A)"]
@@ -215,8 +215,8 @@ def case_cholesky(h, n, cplx, method):
 def cases(tier, seed):
     q = tier == 'quick'
     out = []
-    for cplx, pmax, smax, rmax in ((False, 4 if q else 6, 3 if q else 4, 2 if q else 3),
-                                   (True, 2 if q else 3, 2 if q else 3, 1 if q else 2)):
+    for cplx, pmax, smax, rmax in ((False, 4 if q else 6, 3 if q else 4, 2),
+                                   (True, 2 if q else 3, 2 if q else 3, 1)):
         tag = 'cx' if cplx else 're'
         for p in range(1, pmax + 1):
             out.append(Case("LEVINSON:%s:p=%d" % (tag, p), case_levinson,
@@ -227,7 +227,7 @@ def cases(tier, seed):
     for cplx in (False, True):
         tag = 'cx' if cplx else 're'
         for M in range(1, (3 if q else 4) + 1):
-            if M <= (2 if cplx else 3) or not q:
+            if M <= (2 if cplx else (3 if q else 4)):
                 out.append(Case("TOEPLITZ:%s:M=%d" % (tag, M), case_toeplitz, dict(M=M, cplx=cplx), timeout=60 if q else 300,
                                 wall=300 if q else 2400))
             out.append(Case("HERMTOEP:%s:M=%d" % (tag, M), case_hermtoep, dict(M=M, cplx=cplx), timeout=60 if q else 300,
@@ -238,4 +238,9 @@ def cases(tier, seed):
             for n in range(1, (3 if (not cplx or not q) else 2) + 1):
                 out.append(Case("CHOLESKY:%s:%s:n=%d" % (method, tag, n), case_cholesky, dict(n=n, cplx=cplx, method=method),
                                 timeout=60 if q else 300))
+    # stability beyond the direct root query: a = step-up(k) (decided above) + |k|<1 (decided above) + this lemma
+    from .common import case_schur_cohn_lemma
+    for p_, cplx in ([(1, False), (2, False), (1, True)] if q else [(1, False), (2, False), (3, False), (1, True), (2, True)]):
+        out.append(Case("schur-cohn-lemma:%s:p=%d" % ('cx' if cplx else 're', p_), case_schur_cohn_lemma,
+                        dict(p=p_, cplx=cplx), lemma=True, timeout=120 if q else 900))
     return out
